@@ -55,7 +55,8 @@ def queue_layout(run):
         if any(d[0] == 'expr' and isinstance(d[1], ast.Call) and dotted(d[1].func) in
                ('defer.Deferred', 'Deferred') for d in ds):
             idx_d = i
-        elif len(params) > 1 and e.id == params[1]:
+        elif len(params) > 1 and (e.id == params[1] or (ds and all(d[0] == 'expr' and params[1] in [x.id for x in ast.walk(d[1]) if isinstance(x, ast.Name)] for d in ds))):
+            # the command parameter itself, or a local every definition of which is computed from it (cmd / cmd.encode(...))
             idx_cmd = i
         elif len(params) > 2 and e.id == params[2]:
             idx_cb = i
@@ -214,8 +215,9 @@ def r01_2(run):
     for d in qdefs.get(cmdname, []):
         if d[0] == 'param':
             continue
-        ok = (d[0] == 'expr' and isinstance(d[1], ast.Call) and callee_attr(d[1]) == 'encode'
-              and dotted(receiver(d[1])) == cmdname)
+        pname = qc.params[1] if len(qc.params) > 1 else cmdname
+        ok = d[0] == 'expr' and ((isinstance(d[1], ast.Call) and callee_attr(d[1]) == 'encode' and dotted(receiver(d[1])) in (cmdname, pname))
+                                 or dotted(d[1]) == pname)
         run.ob('R01.2', qc, d[1] if len(d) > 1 else qc.node, 'queued command is the argument, at most encoded', ok,
                slot='queue_command:cmd-def:%s' % (src(d[1])[:40] if len(d) > 1 else d[0]),
                message='queue_command rewrites the command before queueing: %s = %s' % (cmdname, src(d[1]) if len(d) > 1 else d[0]))
